@@ -950,50 +950,59 @@ let poll_fut s f x w =
                   | BDisc -> ((kill s' f x), (OReady (ODisc r))))
      | None -> (s, ONA))
   | FSend v ->
-    if s.s_closed
-    then ((add_drops (kill s f x) (v :: [])), (OReady OClosed))
-    else let (s', s0) = try_send_core v s in
-         (match s0 with
-          | SOk -> ((kill s' f x), (OReady OOk))
-          | SFull -> ((pend (reg_producer f w s') f x.f_kind w), OPending)
-          | SClosedR ->
-            ((add_drops (kill s' f x) (v :: [])), (OReady OClosed)))
-  | FSendB (rest, sent, total) ->
-    if N.eqb sent total
-    then ((kill s f x), (OReady (OBatch (BOk, total, []))))
+    if negb s.s_alive
+    then (s, ONA)
     else if s.s_closed
-         then ((add_drops (kill s f x) rest), (OReady (OBErr (sent, rest))))
-         else (match send_some rest s with
-               | Some p ->
-                 let (p0, rest') = p in
-                 let (s', k) = p0 in
-                 if N.eqb (N.add sent k) total
-                 then ((kill s' f x), (OReady (OBatch (BOk, total, []))))
-                 else ((pend (reg_producer f w s') f (FSendB (rest',
-                         (N.add sent k), total)) w), OPending)
-               | None ->
-                 ((add_drops (kill s f x) rest), (OReady (OBErr (sent,
-                   rest)))))
+         then ((add_drops (kill s f x) (v :: [])), (OReady OClosed))
+         else let (s', s0) = try_send_core v s in
+              (match s0 with
+               | SOk -> ((kill s' f x), (OReady OOk))
+               | SFull ->
+                 ((pend (reg_producer f w s') f x.f_kind w), OPending)
+               | SClosedR ->
+                 ((add_drops (kill s' f x) (v :: [])), (OReady OClosed)))
+  | FSendB (rest, sent, total) ->
+    if negb s.s_alive
+    then (s, ONA)
+    else if N.eqb sent total
+         then ((kill s f x), (OReady (OBatch (BOk, total, []))))
+         else if s.s_closed
+              then ((add_drops (kill s f x) rest), (OReady (OBErr (sent,
+                     rest))))
+              else (match send_some rest s with
+                    | Some p ->
+                      let (p0, rest') = p in
+                      let (s', k) = p0 in
+                      if N.eqb (N.add sent k) total
+                      then ((kill s' f x), (OReady (OBatch (BOk, total, []))))
+                      else ((pend (reg_producer f w s') f (FSendB (rest',
+                              (N.add sent k), total)) w), OPending)
+                    | None ->
+                      ((add_drops (kill s f x) rest), (OReady (OBErr (sent,
+                        rest)))))
   | FSendM (rest, sent) ->
-    (match rest with
-     | [] -> ((kill s f x), (OReady (OMut (true, sent, []))))
-     | _ :: _ ->
-       if s.s_closed
-       then ((add_drops (kill s f x) rest), (OReady (OMut (false, sent,
-              rest))))
-       else (match send_some rest s with
-             | Some p ->
-               let (p0, rest') = p in
-               let (s', k) = p0 in
-               (match rest' with
-                | [] ->
-                  ((kill s' f x), (OReady (OMut (true, (N.add sent k), []))))
-                | _ :: _ ->
-                  ((pend (reg_producer f w s') f (FSendM (rest',
-                     (N.add sent k))) w), OPending))
-             | None ->
-               ((add_drops (kill s f x) rest), (OReady (OMut (false, sent,
-                 rest))))))
+    if negb s.s_alive
+    then (s, ONA)
+    else (match rest with
+          | [] -> ((kill s f x), (OReady (OMut (true, sent, []))))
+          | _ :: _ ->
+            if s.s_closed
+            then ((add_drops (kill s f x) rest), (OReady (OMut (false, sent,
+                   rest))))
+            else (match send_some rest s with
+                  | Some p ->
+                    let (p0, rest') = p in
+                    let (s', k) = p0 in
+                    (match rest' with
+                     | [] ->
+                       ((kill s' f x), (OReady (OMut (true, (N.add sent k),
+                         []))))
+                     | _ :: _ ->
+                       ((pend (reg_producer f w s') f (FSendM (rest',
+                          (N.add sent k))) w), OPending))
+                  | None ->
+                    ((add_drops (kill s f x) rest), (OReady (OMut (false,
+                      sent, rest))))))
 
 (** val resident : st -> n list **)
 
